@@ -21,12 +21,53 @@ type unsafeUse struct {
 	What string `json:"what"`
 }
 
+// treeTypes: the named types of package parser a parsed tree consists of (MJMLNode and whatever its fields reach);
+// nil until astWriteFacts has computed it - then parse-time helpers such as the line lookup are not "the tree".
+var treeTypes map[*types.TypeName]bool
+
+func computeTreeTypes(pkg *types.Package) {
+	treeTypes = map[*types.TypeName]bool{}
+	root, _ := pkg.Scope().Lookup("MJMLNode").(*types.TypeName)
+	if root == nil {
+		treeTypes = nil
+		return
+	}
+	var walk func(t types.Type)
+	walk = func(t types.Type) {
+		switch x := types.Unalias(t).(type) {
+		case *types.Named:
+			if x.Obj().Pkg() == nil || x.Obj().Pkg().Path() != modPath+"/parser" || treeTypes[x.Obj()] {
+				return
+			}
+			treeTypes[x.Obj()] = true
+			walk(x.Underlying())
+		case *types.Pointer:
+			walk(x.Elem())
+		case *types.Slice:
+			walk(x.Elem())
+		case *types.Array:
+			walk(x.Elem())
+		case *types.Map:
+			walk(x.Key())
+			walk(x.Elem())
+		case *types.Struct:
+			for i := 0; i < x.NumFields(); i++ {
+				walk(x.Field(i).Type())
+			}
+		}
+	}
+	walk(root.Type())
+}
+
 func isParserNamed(t types.Type) bool {
 	if t == nil {
 		return false
 	}
 	if n, ok := t.(*types.Named); ok && n.Obj().Pkg() != nil {
-		return n.Obj().Pkg().Path() == modPath+"/parser"
+		if n.Obj().Pkg().Path() != modPath+"/parser" {
+			return false
+		}
+		return treeTypes == nil || treeTypes[n.Obj()]
 	}
 	if a, ok := t.(*types.Alias); ok {
 		return isParserNamed(types.Unalias(a))
@@ -44,22 +85,61 @@ func isPtrToParser(t types.Type) bool {
 	return false
 }
 
-// astWrites: every statement outside package parser that may write memory of the parsed tree.
+func isRefType(t types.Type) bool {
+	if t == nil {
+		return false
+	}
+	switch t.Underlying().(type) {
+	case *types.Slice, *types.Map:
+		return true
+	}
+	return false
+}
+
+// one function declaration of the product, with what the whole-program pre-pass learnt about it
+type wfn struct {
+	pkg   string
+	info  *types.Info
+	fd    *ast.FuncDecl
+	obj   *types.Func
+	name  string
+	scan  bool // its statements are subject to the "no write through tree memory" rule
+	alias map[types.Object]bool
+}
+
+// in-place mutators of the slices package (besides sort.* / slices.Sort* / slices.Reverse)
+var slicesMutators = map[string]bool{"slices.Delete": true, "slices.DeleteFunc": true, "slices.Insert": true, "slices.Replace": true,
+	"slices.Compact": true, "slices.CompactFunc": true}
+
+// astWrites: every statement that may write memory of the parsed tree while a document is compiled.
+//
+// Scope: every function outside package parser; inside package parser the methods of the tree's own types (the
+// getters the renderer calls) and every parser function that is handed a reference into the tree by a function in
+// scope.  References flow across calls: a slice / map parameter that receives a tree slice at some call site is tree
+// memory inside the callee, and a function that returns a tree slice yields tree memory at its call sites (computed
+// to a fixed point over the whole product).
 func astWriteFacts(l *loader) ([]astWrite, []unsafeUse, int) {
 	var out []astWrite
 	var uns []unsafeUse
 	scanned := 0
+	var fns []*wfn
+	byObj := map[*types.Func]*wfn{}
+	if pp := l.pkgs[modPath+"/parser"]; pp != nil {
+		computeTreeTypes(pp)
+	}
 	for _, p := range sortedKeys(l.files) {
-		if !isProdPkg(p) || short(p) == "parser" {
+		if !isProdPkg(p) {
 			continue
 		}
 		info := l.infos[p]
 		for _, f := range l.files[p] {
-			for _, imp := range f.Imports {
-				path := strings.Trim(imp.Path.Value, `"`)
-				if path == "unsafe" || path == "reflect" {
-					file, line := l.pos(imp.Pos())
-					uns = append(uns, unsafeUse{file, line, "import " + path})
+			if short(p) != "parser" {
+				for _, imp := range f.Imports {
+					path := strings.Trim(imp.Path.Value, `"`)
+					if path == "unsafe" || path == "reflect" {
+						file, line := l.pos(imp.Pos())
+						uns = append(uns, unsafeUse{file, line, "import " + path})
+					}
 				}
 			}
 			for _, d := range f.Decls {
@@ -67,161 +147,257 @@ func astWriteFacts(l *loader) ([]astWrite, []unsafeUse, int) {
 				if !ok || fd.Body == nil {
 					continue
 				}
-				fname := funcName(fd)
-				// aliases: locals that hold a slice/map/pointer obtained from the tree
-				alias := map[types.Object]bool{}
-				var reach func(e ast.Expr) bool     // the lvalue e designates tree memory
-				var treeValue func(e ast.Expr) bool // the value of e is a reference (slice/map/pointer) into the tree
-				treeValue = func(e ast.Expr) bool {
-					switch x := e.(type) {
-					case *ast.ParenExpr:
-						return treeValue(x.X)
-					case *ast.Ident:
-						return alias[info.Uses[x]]
-					case *ast.SelectorExpr:
-						t := info.TypeOf(x.X)
-						if isPtrToParser(t) || (isParserNamed(t) && reach(x.X)) {
-							switch info.TypeOf(x).Underlying().(type) {
-							case *types.Slice, *types.Map, *types.Pointer:
-								return true
-							}
-						}
-						return false
-					case *ast.SliceExpr:
-						return treeValue(x.X)
-					case *ast.IndexExpr:
-						// element of a tree slice that is itself a reference
-						if treeValue(x.X) {
-							switch info.TypeOf(x).Underlying().(type) {
-							case *types.Slice, *types.Map:
-								return true
-							}
-						}
-						return false
+				obj, _ := info.Defs[fd.Name].(*types.Func)
+				w := &wfn{pkg: p, info: info, fd: fd, obj: obj, name: funcName(fd), alias: map[types.Object]bool{}}
+				if short(p) != "parser" {
+					w.scan = true
+				} else if fd.Recv != nil && len(fd.Recv.List) > 0 {
+					t := info.TypeOf(fd.Recv.List[0].Type)
+					if isParserNamed(t) || isPtrToParser(t) {
+						w.scan = true
 					}
-					return false
 				}
-				reach = func(e ast.Expr) bool {
-					switch x := e.(type) {
-					case *ast.ParenExpr:
-						return reach(x.X)
-					case *ast.StarExpr:
-						return isPtrToParser(info.TypeOf(x.X))
-					case *ast.SelectorExpr:
-						t := info.TypeOf(x.X)
-						if isPtrToParser(t) {
-							return true
-						}
-						if t != nil {
-							if _, isStruct := t.Underlying().(*types.Struct); isStruct {
-								return reach(x.X)
-							}
-						}
-						return false
-					case *ast.IndexExpr:
-						t := info.TypeOf(x.X)
-						if t == nil {
-							return false
-						}
-						switch t.Underlying().(type) {
-						case *types.Slice, *types.Map:
-							return treeValue(x.X)
-						case *types.Array:
-							return reach(x.X)
-						}
-						return false
-					}
-					return false
+				fns = append(fns, w)
+				if obj != nil {
+					byObj[obj] = w
 				}
-				add := func(pos token.Pos, what, kind string) {
-					file, line := l.pos(pos)
-					out = append(out, astWrite{file, line, fname, what, kind})
-				}
-				// two passes so that aliases defined later in source order are still seen in loops
-				for pass := 0; pass < 2; pass++ {
-					ast.Inspect(fd.Body, func(n ast.Node) bool {
-						switch s := n.(type) {
-						case *ast.AssignStmt:
-							for i, lhs := range s.Lhs {
-								if i < len(s.Rhs) && len(s.Lhs) == len(s.Rhs) {
-									if id, ok := lhs.(*ast.Ident); ok && treeValue(s.Rhs[i]) {
-										obj := info.Defs[id]
-										if obj == nil {
-											obj = info.Uses[id]
-										}
-										if obj != nil {
-											alias[obj] = true
-										}
-									}
-								}
-							}
-						case *ast.RangeStmt:
-							// for _, v := range node.Children: v is a copy of an element; if elements are
-							// slices/maps they alias the tree
-							if treeValue(s.X) && s.Value != nil {
-								if id, ok := s.Value.(*ast.Ident); ok {
-									switch info.TypeOf(s.Value).Underlying().(type) {
-									case *types.Slice, *types.Map:
-										if obj := info.Defs[id]; obj != nil {
-											alias[obj] = true
-										}
-									}
-								}
-							}
-						}
-						return true
-					})
-				}
-				ast.Inspect(fd.Body, func(n ast.Node) bool {
-					switch s := n.(type) {
-					case *ast.AssignStmt:
-						scanned++
-						if s.Tok == token.DEFINE {
-							return true
-						}
-						for _, lhs := range s.Lhs {
-							if reach(lhs) {
-								add(lhs.Pos(), types.ExprString(lhs), "assignment")
-							}
-						}
-					case *ast.IncDecStmt:
-						scanned++
-						if reach(s.X) {
-							add(s.Pos(), types.ExprString(s.X), "inc/dec")
-						}
-					case *ast.CallExpr:
-						if id, ok := s.Fun.(*ast.Ident); ok && len(s.Args) > 0 {
-							switch id.Name {
-							case "append":
-								scanned++
-								if treeValue(s.Args[0]) {
-									add(s.Pos(), types.ExprString(s.Args[0]), "append to a tree slice (shared backing array)")
-								}
-							case "delete", "copy", "clear":
-								scanned++
-								if treeValue(s.Args[0]) {
-									add(s.Pos(), types.ExprString(s.Args[0]), id.Name)
-								}
-							}
-						}
-						q := qualifiedCallee(info, s)
-						if strings.HasPrefix(q, "sort.") || strings.HasPrefix(q, "slices.Sort") || strings.HasPrefix(q, "slices.Reverse") {
-							scanned++
-							if len(s.Args) > 0 && treeValue(s.Args[0]) {
-								add(s.Pos(), types.ExprString(s.Args[0]), q)
-							}
-						}
-					case *ast.UnaryExpr:
-						// &node.Field escaping: conservative flag for non-call contexts is too noisy; the
-						// only address-of forms on tree memory are reported.
-						if s.Op == token.AND && reach(s.X) {
-							add(s.Pos(), types.ExprString(s.X), "address of tree memory taken")
-						}
-					}
-					return true
-				})
 			}
 		}
+	}
+	paramAlias := map[types.Object]bool{}
+	retTree := map[*types.Func]bool{}
+
+	calleeOf := func(info *types.Info, call *ast.CallExpr) *types.Func {
+		switch f := call.Fun.(type) {
+		case *ast.Ident:
+			fn, _ := info.Uses[f].(*types.Func)
+			return fn
+		case *ast.SelectorExpr:
+			fn, _ := info.Uses[f.Sel].(*types.Func)
+			return fn
+		}
+		return nil
+	}
+
+	// the two judgements of one function under the current whole-program knowledge
+	type judge struct {
+		reach     func(e ast.Expr) bool // the lvalue e designates tree memory
+		treeValue func(e ast.Expr) bool // the value of e is a reference (slice / map / pointer) into the tree
+	}
+	mkJudge := func(w *wfn) judge {
+		info := w.info
+		var j judge
+		j.treeValue = func(e ast.Expr) bool {
+			switch x := e.(type) {
+			case *ast.ParenExpr:
+				return j.treeValue(x.X)
+			case *ast.Ident:
+				o := info.Uses[x]
+				return w.alias[o] || paramAlias[o]
+			case *ast.SelectorExpr:
+				t := info.TypeOf(x.X)
+				if isPtrToParser(t) || (isParserNamed(t) && j.reach(x.X)) {
+					switch info.TypeOf(x).Underlying().(type) {
+					case *types.Slice, *types.Map, *types.Pointer:
+						return true
+					}
+				}
+				return false
+			case *ast.SliceExpr:
+				return j.treeValue(x.X)
+			case *ast.IndexExpr:
+				if j.treeValue(x.X) {
+					return isRefType(info.TypeOf(x))
+				}
+				return false
+			case *ast.CallExpr:
+				if fn := calleeOf(info, x); fn != nil && retTree[fn] {
+					return true
+				}
+				return false
+			}
+			return false
+		}
+		j.reach = func(e ast.Expr) bool {
+			switch x := e.(type) {
+			case *ast.ParenExpr:
+				return j.reach(x.X)
+			case *ast.StarExpr:
+				return isPtrToParser(info.TypeOf(x.X))
+			case *ast.SelectorExpr:
+				t := info.TypeOf(x.X)
+				if isPtrToParser(t) {
+					return true
+				}
+				if t != nil {
+					if _, isStruct := t.Underlying().(*types.Struct); isStruct {
+						return j.reach(x.X)
+					}
+				}
+				return false
+			case *ast.IndexExpr:
+				t := info.TypeOf(x.X)
+				if t == nil {
+					return false
+				}
+				switch t.Underlying().(type) {
+				case *types.Slice, *types.Map:
+					return j.treeValue(x.X)
+				case *types.Array:
+					return j.reach(x.X)
+				}
+				return false
+			}
+			return false
+		}
+		return j
+	}
+	// local aliases: variables that hold a slice / map obtained from the tree
+	localAliases := func(w *wfn, j judge) {
+		info := w.info
+		for pass := 0; pass < 2; pass++ {
+			ast.Inspect(w.fd.Body, func(n ast.Node) bool {
+				switch s := n.(type) {
+				case *ast.AssignStmt:
+					for i, lhs := range s.Lhs {
+						if i < len(s.Rhs) && len(s.Lhs) == len(s.Rhs) {
+							if id, ok := lhs.(*ast.Ident); ok && j.treeValue(s.Rhs[i]) {
+								obj := info.Defs[id]
+								if obj == nil {
+									obj = info.Uses[id]
+								}
+								if obj != nil {
+									w.alias[obj] = true
+								}
+							}
+						}
+					}
+				case *ast.RangeStmt:
+					if j.treeValue(s.X) && s.Value != nil {
+						if id, ok := s.Value.(*ast.Ident); ok && isRefType(info.TypeOf(s.Value)) {
+							if obj := info.Defs[id]; obj != nil {
+								w.alias[obj] = true
+							}
+						}
+					}
+				}
+				return true
+			})
+		}
+	}
+	// whole-program fixed point: parameters that receive tree references, functions that return them
+	for changed := true; changed; {
+		changed = false
+		for _, w := range fns {
+			if !w.scan {
+				continue
+			}
+			j := mkJudge(w)
+			localAliases(w, j)
+			ast.Inspect(w.fd.Body, func(n ast.Node) bool {
+				switch s := n.(type) {
+				case *ast.CallExpr:
+					fn := calleeOf(w.info, s)
+					cw := byObj[fn]
+					if fn == nil || cw == nil {
+						return true
+					}
+					sig, _ := fn.Type().(*types.Signature)
+					if sig == nil {
+						return true
+					}
+					for i, a := range s.Args {
+						k := i
+						if k >= sig.Params().Len() {
+							k = sig.Params().Len() - 1
+						}
+						if k < 0 {
+							break
+						}
+						pv := sig.Params().At(k)
+						if isRefType(pv.Type()) && j.treeValue(a) {
+							if !paramAlias[pv] {
+								paramAlias[pv] = true
+								changed = true
+							}
+							if !cw.scan {
+								cw.scan = true
+								changed = true
+							}
+						}
+					}
+				case *ast.ReturnStmt:
+					for _, r := range s.Results {
+						if w.obj != nil && isRefType(w.info.TypeOf(r)) && j.treeValue(r) && !retTree[w.obj] {
+							retTree[w.obj] = true
+							changed = true
+						}
+					}
+				}
+				return true
+			})
+		}
+	}
+	// the scan proper
+	for _, w := range fns {
+		if !w.scan {
+			continue
+		}
+		info := w.info
+		j := mkJudge(w)
+		localAliases(w, j)
+		add := func(pos token.Pos, what, kind string) {
+			file, line := l.pos(pos)
+			out = append(out, astWrite{file, line, w.name, what, kind})
+		}
+		ast.Inspect(w.fd.Body, func(n ast.Node) bool {
+			switch s := n.(type) {
+			case *ast.AssignStmt:
+				scanned++
+				if s.Tok == token.DEFINE {
+					return true
+				}
+				for _, lhs := range s.Lhs {
+					if j.reach(lhs) {
+						add(lhs.Pos(), types.ExprString(lhs), "assignment")
+					}
+				}
+			case *ast.IncDecStmt:
+				scanned++
+				if j.reach(s.X) {
+					add(s.Pos(), types.ExprString(s.X), "inc/dec")
+				}
+			case *ast.CallExpr:
+				if id, ok := s.Fun.(*ast.Ident); ok && len(s.Args) > 0 {
+					switch id.Name {
+					case "append":
+						scanned++
+						if j.treeValue(s.Args[0]) {
+							add(s.Pos(), types.ExprString(s.Args[0]), "append to a tree slice (shared backing array)")
+						}
+					case "delete", "copy", "clear":
+						scanned++
+						if j.treeValue(s.Args[0]) {
+							add(s.Pos(), types.ExprString(s.Args[0]), id.Name)
+						}
+					}
+				}
+				q := qualifiedCallee(info, s)
+				if strings.HasPrefix(q, "sort.") || strings.HasPrefix(q, "slices.Sort") || strings.HasPrefix(q, "slices.Reverse") || slicesMutators[q] {
+					scanned++
+					if len(s.Args) > 0 && j.treeValue(s.Args[0]) {
+						add(s.Pos(), types.ExprString(s.Args[0]), q)
+					}
+				}
+			case *ast.UnaryExpr:
+				// &node.Field escaping: conservative flag for non-call contexts is too noisy; the
+				// only address-of forms on tree memory are reported.
+				if s.Op == token.AND && j.reach(s.X) {
+					add(s.Pos(), types.ExprString(s.X), "address of tree memory taken")
+				}
+			}
+			return true
+		})
 	}
 	return out, uns, scanned
 }
